@@ -131,20 +131,29 @@ func (w *World) branch(ps *pairState, from, tipNum int64, tipHash []byte) ([]*no
 	return out, ""
 }
 
+// walkInputs visits every input of the event including nested components.
+func walkInputs(ins []model.Input, f func(in *model.Input)) {
+	for i := range ins {
+		f(&ins[i])
+		walkInputs(ins[i].Components, f)
+	}
+}
+
 func (w *World) hasRefs(d *model.Decl) bool {
 	for _, f := range d.Block {
 		if f.Filter != nil && f.Filter.Ref != nil && f.Filter.Ref.Integration != "" {
 			return true
 		}
 	}
+	found := false
 	if d.Event != nil {
-		for _, in := range d.Event.Inputs {
+		walkInputs(d.Event.Inputs, func(in *model.Input) {
 			if in.Filter != nil && in.Filter.Ref != nil && in.Filter.Ref.Integration != "" {
-				return true
+				found = true
 			}
-		}
+		})
 	}
-	return false
+	return found
 }
 
 func (w *World) lookupIn(snap *fakepg.Snapshot) model.RefLookup {
@@ -195,19 +204,29 @@ func (w *World) resolvedDecl(d *model.Decl) *model.Decl {
 	}
 	if d.Event != nil {
 		ev := *d.Event
-		ev.Inputs = append([]model.Input(nil), d.Event.Inputs...)
-		for i := range ev.Inputs {
-			if f := ev.Inputs[i].Filter; f != nil && f.Ref != nil && f.Ref.Integration != "" {
+		ev.Inputs = cloneInputs(d.Event.Inputs)
+		walkInputs(ev.Inputs, func(in *model.Input) {
+			if f := in.Filter; f != nil && f.Ref != nil && f.Ref.Integration != "" {
 				nf := *f
 				nr := *f.Ref
 				nr.Table = tbl(nr.Integration)
 				nf.Ref = &nr
-				ev.Inputs[i].Filter = &nf
+				in.Filter = &nf
 			}
-		}
+		})
 		n.Event = &ev
 	}
 	return &n
+}
+
+func cloneInputs(ins []model.Input) []model.Input {
+	out := append([]model.Input(nil), ins...)
+	for i := range out {
+		if len(out[i].Components) > 0 {
+			out[i].Components = cloneInputs(out[i].Components)
+		}
+	}
+	return out
 }
 
 // project returns the canonical row strings d derives from the given blocks.
@@ -842,9 +861,7 @@ func (w *World) depsOf(d *model.Decl) []string {
 		add(f.Filter)
 	}
 	if d.Event != nil {
-		for _, in := range d.Event.Inputs {
-			add(in.Filter)
-		}
+		walkInputs(d.Event.Inputs, func(in *model.Input) { add(in.Filter) })
 	}
 	return out
 }
